@@ -7,6 +7,6 @@ export PULSER_TREE=$W PYTHONPATH=$W/pulser-core:$W/pulser-simulation MPLBACKEND=
 (cd /tmp && timeout 600 /venv/bin/python $d/demo.py >/dev/null 2>&1); clean=$?
 if ! git -C $W apply $d/patch.diff 2>/dev/null; then echo "$id APPLY-FAIL"; git -C /repo worktree remove --force $W; exit 1; fi
 (cd /tmp && timeout 600 /venv/bin/python $d/demo.py >/dev/null 2>&1); patched=$?
-t=$(cd $W && timeout 900 /venv/bin/python -m pytest tests -q -p no:cacheprovider -n 6 2>&1 | tail -1)
+t=$(cd $W && timeout 900 /venv/bin/python -m pytest tests -q -p no:cacheprovider -n ${CONFIRM_N:-6} 2>&1 | tail -1)
 echo "$id demo_clean=$clean demo_patched=$patched tests: $t"
 git -C /repo worktree remove --force $W
